@@ -202,6 +202,190 @@ def pton_jobs(tier):
     return J
 
 
+def nsuri_jobs(tier):
+    """parse_nameserver_uri() with an abstract URI object (nameserver_uri.c); host text concrete per job, expected address
+    bytes from Python's ipaddress module (independent of c-ares)"""
+    import ipaddress
+    J = []
+    hosts = [("v4", "1.2.3.4"), ("v4hi", "255.254.253.252"), ("v6", "::1"), ("v6full", "2001:db8::a:b"),
+             ("ll_scope", "fe80::1%eth0"), ("ll_longscope", "fe80::1%abcdefghijklmnopqrst"), ("ll_noscope", "fe80::1"),
+             ("name", "ns.example"), ("badaddr", "1.2.3.4.5")]
+    rfp = {"instrument": [["--restrict-function-pointer", "ares_llist_node_destroy.function_pointer_call.1/ares_free"]]}
+    for nm, host in hosts:
+        addr, _, scope = host.partition("%")
+        try:
+            ip = ipaddress.ip_address(addr)
+            fam, xaddr = ip.version, ",".join(str(b) for b in ip.packed)
+        except ValueError:
+            fam, xaddr = 0, "0"
+        n = len(host)
+        u = pton_unwind(n)
+        u.update({"strchr.0": max(n + 2, 24), "strcmp.0": 9, "ares_strcpy.0": n + 2, "memcpy.0": max(n + 2, 22), "harness.0": 8, "harness.1": 8,
+                  "harness.2": 18, "harness.3": 18, "strtol.0": 9, "atoi.0": 9, "memcmp.0": 18, "ares_streq.0": 5, "vp_bytes.0": 50, "strlen.0": max(n + 2, 18),
+                  "ares_buf_split.2": 2, "ares_buf_split.0": 2, "ares_buf_split.1": 2, "ares_sconfig_append_fromstr.0": 2,
+                  "ares_array_destroy.0": 2, "ares_array_insertdata_last.0": 9, "ares_array_insert_last.1": 9,
+                  "ares_llist_clear.0": 3, "ares_sconfig_linklocal.0": 18, "ares_sconfig_linklocal.1": 18, "ares_dns_pton.0": 48})
+        d = ["-DHOST=" + q(host), "-DXFAM=%d" % fam, "-DXADDR=" + xaddr, "-DXSCOPE=" + q(scope[:15])]
+        what = ("abstract URI object (stubs of ares_uri_parse_buf/get_scheme/get_host/get_port/get_query_key/destroy): parser says 'not a "
+                "URI' or yields scheme dns|https (arbitrary), host = '%s' (concrete; real ares_dns_pton/inet_net_pton on it), port = arbitrary "
+                "unsigned short" % host)
+        for mode in (0, 1):
+            if mode == 1 and nm not in ("v4", "ll_scope", "ll_noscope", "name"):
+                continue
+            dd = d + ["-DMODE=%d" % mode] + (["-DLLNOSCOPE"] if (mode == 1 and nm == "ll_noscope") else [])
+            wit = ["end"]
+            if mode == 0:
+                wit += ["not a URI", "other scheme rejected"] + (["dns URI rejected"] if fam == 0 else []) + \
+                       ([] if fam == 0 else ["ipv%d accepted" % fam, "tcp port differs from udp port"]) + (["scope given"] if scope else [])
+            else:
+                wit += ["nothing stored"] + (["server stored"] if fam and nm != "ll_noscope" else []) + (["link-local stored"] if nm == "ll_scope" else [])
+            J.append(dict(name="c15_nsuri_%s_%s" % (("parse", "fromstr")[mode], nm), harness="nameserver_uri.c", defines=dd, real=NS_LIB,
+                          support=SUP, unwind=18, unwindset=us(u), leak=True, kf_group="c15_nsuri", witnesses=wit, timeout=120,
+                          **(rfp if mode == 1 else {}),
+                          bound=(("one real parse_nameserver_uri into an ares_sconfig_t with ARBITRARY previous content; tcpport query value "
+                                  "absent or 0..6 ARBITRARY non-NUL bytes; " if mode == 0 else
+                                  "real ares_sconfig_append_fromstr('dns://x', ignore_invalid arbitrary), no tcpport key, interface lookups "
+                                  "present or not with arbitrary results, ares_array = array_ref.c; ") + what)))
+    return J
+
+
+SC_LIB = ["src/lib/ares_library_init.c", "src/lib/str/ares_buf.c", "src/lib/str/ares_str.c", "src/lib/util/ares_math.c"]
+_WS = " \t\r\n\v\f"
+
+
+def _ref_lookups(text, form):
+    """Python reference of the documented nsswitch.conf / svc.conf 'hosts' reading (used for the concrete-text jobs only)"""
+    cur = ""
+    keysep, seps = ((":", " \t"), ("=", ","))[form]
+    for line in text.split("\n"):
+        line = line.strip(_WS)
+        if not line or line.startswith("#") or keysep not in line:
+            continue
+        key, val = line.split(keysep, 1)
+        if key.strip(_WS) != "hosts":
+            continue
+        toks, t = [], ""
+        for c in val:
+            if c in seps:
+                toks.append(t); t = ""
+            else:
+                t += c
+        toks.append(t)
+        toks = [t.strip(_WS) for t in toks if t.strip(_WS)]
+        if any(not (0x20 <= ord(c) <= 0x7e) for t in toks for c in t):
+            continue
+        out = ""
+        for t in toks:
+            c = {"dns": "b", "bind": "b", "resolv": "b", "resolve": "b", "files": "f", "file": "f", "local": "f"}.get(t.lower())
+            if c and c not in out:
+                out += c
+        if out:
+            cur = out
+    return cur
+
+
+def cq(s):
+    """C string literal for a -D define"""
+    # named escapes only: goto-cc reads an octal escape followed by a digit ("\\0122") differently from gcc
+    named = {"\n": "\\n", "\t": "\\t", "\r": "\\r", "\v": "\\v", "\f": "\\f", '"': '\\"', "\\": "\\\\"}
+    assert all(c in named or 0x20 <= ord(c) <= 0x7e for c in s)
+    return '"' + "".join(named.get(c, c) for c in s) + '"'
+
+
+def sysconf_jobs(tier):
+    J = []
+    # ---- MODE 0: one line = KW + VPREFIX + V arbitrary bytes
+    shapes = [  # (name, form, kw, vprefix, V, pres)
+        ("nsswitch_v4", 0, "hosts:", "", 4, (0, 1)),
+        ("nsswitch_files_v3", 0, "hosts:", "files ", 3, (0, 1)),
+        ("nsswitch_dns_v3", 0, "hosts:", "dns ", 3, (0,)),   # "dns dns": the duplicate filter
+        ("nsswitch_resol_v3", 0, "hosts:", "resol", 3, (0,)),
+        ("nsswitch_fil_v3", 0, "hosts: ", "fil", 3, (1,)),
+        ("nsswitch_action_v2", 0, "hosts:", "dns [!U=r] ", 2, (1,)),
+        ("nsswitch_keyblank", 0, " hosts :", "dn", 2, (1,)),
+        ("nsswitch_key_host", 0, "host:", "dn", 2, (1,)),
+        ("nsswitch_key_Hosts", 0, "Hosts:", "dn", 2, (1,)),
+        ("nsswitch_key_comment", 0, "#hosts:", "dn", 2, (1,)),
+        ("nsswitch_key31", 0, "h" * 31 + ":", "dn", 2, (1,)),
+        ("nsswitch_key32", 0, "h" * 32 + ":", "dn", 2, (1,)),
+        ("nsswitch_key33", 0, "h" * 33 + ":", "dn", 2, (1,)),
+        ("svcconf_v4", 1, "hosts=", "", 4, (0, 1)),
+        ("svcconf_local_bin_v2", 1, "hosts = ", "local , bin", 2, (0, 1)),
+        ("svcconf_bin_v3", 1, "hosts=", "bin", 3, (1,)),
+        ("svcconf_key_comment", 1, "#hosts=", "bin", 2, (1,)),
+        ("svcconf_key_host", 1, "host=", "bin", 2, (1,)),
+    ]
+    for nm, form, kw, vp, v, pres in shapes:
+        sep = ":="[form]
+        key = kw.split(sep, 1)[0]
+        keyok = int(key.strip(_WS) == "hosts" and not kw.startswith("#"))
+        n = len(kw) + len(vp) + v
+        vl = n - len(kw.split(sep, 1)[0]) - 1
+        # sections the value can be split into; a comma is not trimmed away, so every arbitrary byte can end a section
+        tok = (vl // 2 + 2) if form == 0 else vp.count(",") + v + 1
+        u = {"ares_buf_tag_fetch_string.0": n + 1, "memchr.0": n + 2, "ares_buf_consume_until_charset.0": n + 2,
+             "ares_buf_consume_until_charset.1": n + 2, "ares_buf_split.2": tok + 1, "ares_buf_split.0": n + 1, "ares_buf_split.1": n + 1,
+             "ares_buf_split_str_array.0": tok + 1, "ares_free_array.0": tok + 1, "ares_free_array.1": tok + 1,
+             "ares_array_destroy.0": tok + 1, "config_lookup.0": tok + 1, "ares_array_insertdata_last.0": 9,
+             "ares_array_insert_last.1": 9, "ares_buf_fetch_str_dup.0": vl + 1, "memcpy.0": n + 2, "ares_memeq_ci.0": 9,
+             "strcasecmp.0": 9, "ares_strcaseeq.0": 9, "strlen.0": max(vl + 2, 9), "strcmp.0": 9, "ares_streq.0": 9, "str_eq.0": 18,
+             "harness.0": n + 1, "harness.1": v + 1, "harness.2": len(kw) + 2, "r_read.0": vl + 2, "r_read.1": vl + 2,
+             "r_read.2": vl + 2, "r_read.3": vl + 2, "r_read.4": vl + 2, "r_word.0": 9, "ares_str_isprint.0": n + 1}
+        for pre in pres:
+            J.append(dict(name="c15_%s_pre%d" % (nm, pre), harness="sysconfline.c",
+                          defines=["-DMODE=0", "-DFORM=%d" % form, "-DKW=" + cq(kw), "-DVPREFIX=" + cq(vp), "-DV=%d" % v, "-DPRE=%d" % pre,
+                                   "-DKEYOK=%d" % keyok],
+                          real=SC_LIB, support=SUP, unwind=max(n + 2, 12), unwindset=us(u), leak=True, kf_group="c15_sysconfline",
+                          cbmc=["--max-field-sensitivity-array-size", "64"], timeout=240,
+                          witnesses=["end", "line without effect"] + (["line took effect"] if keyok else []),
+                          bound="one real %s on '%s' + %d ARBITRARY bytes (no line feed) from %s sysconfig; result compared with the "
+                                "harness's independent tokenizer" % (("parse_nsswitch_line", "parse_svcconf_line")[form], kw + vp, v,
+                                ("a freshly initialised", "a populated (1 domain, lookups 'bf' or 'f', 1 sortlist entry, opaque server list, arbitrary scalars)")[pre])))
+    # ---- MODE 2: line driver on concrete texts
+    texts = [("lf", "hosts: files dns\n# c\n"), ("crlf", "a b\r\n\r\n  c d\t\r\n"), ("nonl", "x\ny"), ("blank", "\n\n one \n\n\ntwo\n\n"),
+             ("ws_only", " \t\n\r\n"), ("four", "1\n2\n3\n4\n")]
+    for nm, text in texts:
+        exp = [l.strip(_WS) for l in text.split("\n") if l.strip(_WS)]
+        n = len(text)
+        u = {"ares_buf_split.2": len(text.split("\n")) + 1, "ares_buf_split.0": n + 1, "ares_buf_split.1": n + 1,
+             "ares_buf_consume_until_charset.0": n + 2, "ares_buf_consume_until_charset.1": n + 2, "memchr.0": n + 2,
+             "ares_sysconfig_process_buf.0": len(exp) + 1, "ares_array_destroy.0": len(exp) + 1, "ares_array_insertdata_last.0": 9,
+             "ares_array_insert_last.1": 9, "record_cb.0": n + 1, "strlen.0": n + 2}
+        J.append(dict(name="c15_procbuf_%s" % nm, harness="sysconfline.c",
+                      defines=["-DMODE=2", "-DTEXT=" + cq(text), "-DNEXP=%d" % len(exp)] + ["-DEXP%d=%s" % (i, cq(e)) for i, e in enumerate(exp)],
+                      real=SC_LIB, support=SUP, unwind=n + 2, unwindset=us(u), leak=True, kf_group="c15_sysconfline", timeout=120,
+                      witnesses=["end", "all lines delivered"] + (["stopped at failing line"] if exp else []),
+                      bound="real ares_sysconfig_process_buf on the concrete text %s with a recording callback (fails at an arbitrary line or "
+                            "never); expected lines computed by Python" % repr(text)))
+    # ---- MODE 3: file driver (stdio stubs) + real line reader on concrete files
+    files = [("nsswitch_typical", 0, "# /etc/nsswitch.conf\npasswd: files\nhosts: files dns\n"),
+             ("nsswitch_comment_last", 0, "hosts: dns\n#hosts: files\n"),
+             ("nsswitch_junk_last", 0, "hosts:\tfiles\thosts: dns\nhosts dns\n:dns\nhosts: [NOTFOUND=return] mdns\n"),
+             ("nsswitch_override", 0, "hosts: dns\r\nhosts: files resolve files\r\n"),
+             ("svcconf_typical", 1, "# netsvc.conf\nhosts = local , bind\n"),
+             ("svcconf_junk", 1, "hosts=bind\nhosts=nis,yp\nhosts\n=local\n")]
+    files += [("nofile", 0, "hosts: dns\n")]
+    for nm, form, text in files:
+        n = len(text)
+        hf = int(nm != "nofile")
+        nl = len(text.split("\n"))
+        u = {"ares_buf_split.2": max(nl, 6) + 1, "ares_buf_split.0": n + 1, "ares_buf_split.1": n + 1, "fread.0": n + 1,
+             "ares_buf_consume_until_charset.0": n + 2, "ares_buf_consume_until_charset.1": n + 2, "memchr.0": n + 2,
+             "ares_sysconfig_process_buf.0": nl + 1, "ares_array_destroy.0": max(nl, 6) + 1, "ares_array_insertdata_last.0": 9,
+             "ares_array_insert_last.1": 9, "ares_buf_split_str_array.0": 7, "ares_free_array.0": 7, "ares_free_array.1": 7,
+             "config_lookup.0": 7, "ares_buf_fetch_str_dup.0": n + 1, "memcpy.0": n + 2, "strlen.0": n + 2, "str_eq.0": 18,
+             "ares_buf_ensure_space.0": 8, "ares_buf_tag_fetch_string.0": n + 1}
+        J.append(dict(name="c15_cfgfile_%s" % nm, harness="sysconfline.c",
+                      defines=["-DMODE=3", "-DHAVEFILE=%d" % hf, "-DFORM=%d" % form, "-DTEXT=" + cq(text), "-DEXPLOOKUPS=" + cq(_ref_lookups(text, form))],
+                      real=SC_LIB, support=SUP, unwind=n + 2, unwindset=us(u), leak=True, kf_group="c15_sysconfline", native=False, timeout=120,
+                      witnesses=["end", "file processed" if hf else "no file"],
+                      bound="real process_config_lines + ares_buf_load_file + ares_sysconfig_process_buf + %s on %s (stdio = in-memory "
+                            "stubs); expected lookups '%s' computed by Python" %
+                            (("parse_nsswitch_line", "parse_svcconf_line")[form],
+                             ("the concrete file %s" % repr(text)) if hf else "a missing (ENOENT) or unreadable (EACCES) file", _ref_lookups(text, form))))
+    return J
+
+
 RL_LIB = ["src/lib/ares_library_init.c", "src/lib/str/ares_buf.c", "src/lib/str/ares_str.c", "src/lib/str/ares_strsplit.c",
           "src/lib/ares_hosts_file.c", "src/lib/dsa/ares_llist.c", "src/lib/util/ares_math.c", "src/lib/ares_sysconfig_files.c"]
 RL_KEYS = [("domain", 1), ("search", 1), ("lookup", 2), ("hostresorder", 2), ("nameserver", 3), ("sortlist", 4), ("options", 5),
@@ -315,6 +499,8 @@ def jobs(tier, seed):
     J += nameserver_jobs(tier)
     J += sortlist_jobs(tier)
     J += pton_jobs(tier)
+    J += nsuri_jobs(tier)
+    J += sysconf_jobs(tier)
     J += resolvline_jobs(tier)
     J += hostaliases_jobs(tier)
     if tier == "quick":
